@@ -25,7 +25,7 @@ WIDTHS = ('int8', 'int16', 'int32', 'int64')
 
 
 def gen(rng, tier):
-    n = 70 if tier == 'quick' else 2500
+    n = G.budget(70) if tier == 'quick' else 2500
     for it in range(n):
         style = rng.choice(['small', 'small', 'many', 'large'])
         if style == 'many':            # many index-like states in a narrow dtype
